@@ -293,8 +293,16 @@ int World::on_accept(KFd &k, void *addr_v, unsigned *addrlen) {
 	feed_batch_errors_before(k.fd);
 	flush_pending();
 	if (k.backlog.empty()) { errno = EAGAIN; trace.tag("accept-eagain"); return -1; }
-	int ci = k.backlog.front(); k.backlog.pop_front();
-	if (ci < 0) { errno = -ci; probe(std::string("fault:accept_failed:") + std::to_string(-ci)); trace.tag("accept-fail"); trace.u64(-ci); return -1; }
+	int ci = k.backlog.front();
+	// a shortage of descriptors or memory does not take the waiting connection out of the queue: as long as it lasts (here: until the daemon returns to its event loop)
+	// every further accept() on this socket fails the same way
+	bool lasting = ci < 0 && (-ci == EMFILE || -ci == ENFILE || -ci == ENOBUFS || -ci == ENOMEM);
+	if (!lasting) k.backlog.pop_front();
+	else {
+		k.lasting_accept_failure = true;
+		if (++lasting_accept_failures_turn > 200) violation("C11", "accept-retried-in-a-loop", "accept() failed with errno " + std::to_string(-ci) + " (out of descriptors or memory) and was called again more than 200 times without returning to the event loop: the daemon spins and serves nobody while the shortage lasts");
+	}
+	if (ci < 0) { errno = -ci; if (!lasting || lasting_accept_failures_turn == 1) probe(std::string("fault:accept_failed:") + std::to_string(-ci)); trace.tag("accept-fail"); trace.u64(-ci); return -1; }
 	Client &cl = clients[ci];
 	KFd &s = g_kernel.alloc_fd(FD_STREAM);
 	KFd &lk = *g_kernel.get(k.fd);  // alloc may have moved the vector
